@@ -34,6 +34,8 @@ for _n in (
     "lstat utime chmod readlink truncate open access"
 ).split():
     setattr(O, _n, getattr(os, _n))
+O.close = os.close
+O.fstat = os.fstat
 O.builtins_open = builtins.open
 O.io_open = io.open
 O.uuid4 = uuid.uuid4
@@ -224,6 +226,7 @@ class SimWorld:
         self.armed = False
         self.step_idx = 0
         self.trace = []  # (idx, kind, rel, rel2, n) while armed
+        self.fdpaths = {}  # directory descriptors opened through the seam -> absolute path
         self.fired = []
         # scheduler (set by simcore.sched.Scheduler)
         self.sched = None
@@ -360,17 +363,27 @@ class SimWorld:
         world = self
 
         def f(path, *a, **kw):
-            if world.quiet or "dir_fd" in kw:
+            if world.quiet:
                 return orig(path, *a, **kw)
-            rel = world.rel(path)
+            full = path
+            if kw.get("dir_fd") is not None:
+                # a name relative to an open directory (shutil.rmtree's fd-based walk): the seam knows
+                # which directory the descriptor denotes
+                base = world.fdpaths.get(kw["dir_fd"])
+                if base is None or isinstance(path, (int, bytes)):
+                    return orig(path, *a, **kw)
+                full = os.path.join(base, os.fspath(path))
+            elif "dir_fd" in kw:
+                kw = {k: v for k, v in kw.items() if k != "dir_fd"}
+            rel = world.rel(full)
             if rel is None:
                 return orig(path, *a, **kw)
             act = world.step(kind, rel)
             if act is not None and act["kind"] == "errno":
-                world._raise(act, path)
+                world._raise(act, full)
             if kind in NAMESPACE:
                 r = orig(path, *a, **kw)
-                world._stamp_dirs(path, new_dir=(kind == "mkdir"))
+                world._stamp_dirs(full, new_dir=(kind == "mkdir"))
                 return r
             return orig(path, *a, **kw)
 
@@ -451,7 +464,7 @@ class SimWorld:
     def _scandir(self, path="."):
         if self.quiet:
             return O.scandir(path)
-        rel = self.rel(path)
+        rel = self.rel(self.fdpaths[path]) if isinstance(path, int) and path in self.fdpaths else self.rel(path)
         if rel is None:
             return O.scandir(path)
         act = self.step("scandir", rel)
@@ -477,16 +490,33 @@ class SimWorld:
         return O.utime(path, *a, **kw)
 
     def _os_open(self, path, flags, mode=0o777, *, dir_fd=None):
-        if self.quiet or dir_fd is not None:
+        if self.quiet:
             return O.open(path, flags, mode, dir_fd=dir_fd)
-        rel = self.rel(path)
+        full = path
+        if dir_fd is not None:
+            base = self.fdpaths.get(dir_fd)
+            if base is None or isinstance(path, (int, bytes)):
+                return O.open(path, flags, mode, dir_fd=dir_fd)
+            full = os.path.join(base, os.fspath(path))
+        rel = self.rel(full)
         if rel is None:
-            return O.open(path, flags, mode)
+            return O.open(path, flags, mode, dir_fd=dir_fd)
         wr = flags & (os.O_WRONLY | os.O_RDWR | os.O_CREAT | os.O_TRUNC | os.O_APPEND)
         act = self.step("open-w" if wr else "open-r", rel)
         if act is not None and act["kind"] == "errno":
-            self._raise(act, path)
-        return O.open(path, flags, mode)
+            self._raise(act, full)
+        fd = O.open(path, flags, mode, dir_fd=dir_fd)
+        if not wr:
+            try:
+                if _stat.S_ISDIR(O.fstat(fd).st_mode):
+                    self.fdpaths[fd] = os.path.abspath(os.fspath(full))
+            except OSError:
+                pass
+        return fd
+
+    def _os_close(self, fd):
+        self.fdpaths.pop(fd, None)
+        return O.close(fd)
 
     def _open(self, file, mode="r", buffering=-1, encoding=None, errors=None,
               newline=None, closefd=True, opener=None):
@@ -582,7 +612,9 @@ class SimWorld:
         s["sendfile"] = shutil._USE_CP_SENDFILE
         shutil._USE_CP_SENDFILE = False
         s["fdfuncs"] = shutil._use_fd_functions
-        shutil._use_fd_functions = False
+        # shutil.rmtree: the path-based walk, or (knob fd_rmtree) the descriptor-based walk that CPython
+        # uses on Linux; the seam follows names relative to directory descriptors (fdpaths)
+        shutil._use_fd_functions = bool(self.knobs.get("fd_rmtree")) and s["fdfuncs"]
         rng_uuid = self.rng_uuid
         uuid.uuid4 = lambda: uuid.UUID(int=rng_uuid.getrandbits(128), version=4)
 
@@ -603,6 +635,7 @@ class SimWorld:
         os.scandir = self._scandir
         os.utime = self._utime
         os.open = self._os_open
+        os.close = self._os_close
         builtins.open = self._open
         io.open = self._open
         tarfile.bltn_open = self._open
@@ -613,7 +646,7 @@ class SimWorld:
     def __exit__(self, *exc):
         self.active = False
         for n in ("mkdir rmdir unlink remove stat lstat chmod readlink truncate rename "
-                  "replace symlink link listdir scandir utime open").split():
+                  "replace symlink link listdir scandir utime open close").split():
             setattr(os, n, getattr(O, n))
         builtins.open = O.builtins_open
         io.open = O.io_open
